@@ -733,6 +733,7 @@ def rules_c05(ctx, rep):
     cfgs = configs(ctx, forbid=True)
     base_checks(ctx, rep, cfgs)
     rule_records(ctx, rep, cfgs, want=('G7c',))
+    rule_graph(ctx, rep, cfgs, want=('G3',))              # at most one virtual end-of-input position: offsets stay <= len + 1
     rule_fast_loops(ctx, rep, cfgs)
     rid = rep.rule('G7a', 'generated code contains no unsafe block or item (besides the derive-emitted `unsafe impl TrivialClone` of the fieldless helper enums) and touches the source only through lex.read::<T>(offset); table indices are `byte as usize` into 256-entry const tables', floor=60)
     for cfg in cfgs:
@@ -777,6 +778,8 @@ def rules_c07(ctx, rep):
     cfgs = configs(ctx)
     base_checks(ctx, rep, cfgs)
     rule_partial(ctx, rep, cfgs)
+    rule_promptness(ctx, rep, cfgs)
+    rule_graph(ctx, rep, cfgs, want=('G6b', 'G3'))
     rule_shape_coverage(ctx, rep, cfgs)
     controls(ctx, rep, ['G5'])
 
@@ -795,6 +798,7 @@ def rules_c20(ctx, rep):
     base_checks(ctx, rep, cfgs)
     rule_transitions(ctx, rep, cfgs, want=('G1', 'G2', 'G12'))
     rule_fast_loops(ctx, rep, cfgs)
+    rule_graph(ctx, rep, cfgs, want=('G3', 'G6b'))      # no end-of-input cycle (unbounded reads), no walk beyond the decision
     rule_shape_coverage(ctx, rep, cfgs)
     controls(ctx, rep, ['G1', 'G2', 'G11'])
 
@@ -945,3 +949,22 @@ def rule_expect_late(ctx, rep, cfgs):
                 rep.viol(rid, 'no-late-record:%s:%s' % (d.backend, d.self_ty), '%s has no late record at all' % d.name, d.name)
         if not n:
             rep.anchor(rid, 'corpus lookaround::expect_late under %s' % cfg, False)
+
+
+# ------------------------------------------------------------------------------------------------
+# G17: promptness — a decided item is not withheld
+# ------------------------------------------------------------------------------------------------
+
+def rule_promptness(ctx, rep, cfgs):
+    rid = rep.rule('G17', 'promptness: a state from which every byte value and the end of input lead to states that record the same leaf as a late match (end = the position of this state) already determines the item; it must record it itself (early) instead of reading one more position', floor=500)
+    for cfg, d, m, sm, name, s in each_state(ctx, cfgs):
+        k = skey(d, m, name)
+        rep.inst(rid, k)
+        if len(s.edges) != 256 or s.eoi_edge is None:
+            continue
+        succ = set(s.edges.values()) | {s.eoi_edge}
+        recs = {sm[t].record for t in succ}
+        if len(recs) == 1:
+            r = list(recs)[0]
+            if r is not None and r[1] == 'late' and not (s.record and s.record[1] == 'early' and s.record[0] == r[0]):
+                rep.viol(rid, 'withheld:%s' % k, 'state %s: whatever follows (any byte or the end of input) the outcome is leaf %s ending here, yet the state does not record it and waits for one more position: in partial mode the item is withheld although the prefix determines it' % (name, r[0]), d.name)
